@@ -87,6 +87,7 @@ def make_file(rng):
     mislabel = "one-length" if r < 0.25 else "whole-file" if r < 0.31 else "none"
     bad_len = rng.choice(pool)
     mislabelled_lens = set()
+    garbage = set()
     first = True
     for _ in range(rng.randint(1, 14)):
         bits = rng.choice(pool)
@@ -131,7 +132,13 @@ def make_file(rng):
             else:
                 fields[rng.choice([1, 2, 3, 4, 5])] = "x"
         sep = rng.choice([" ", " ", "\t", "  "])
+        if kind >= 0.90 and rng.random() < 0.3:
+            # not a moduli line at all (the parser must skip it and go on with the following lines)
+            fields = [rng.choice(["this is not a moduli line", "<<<<<<< HEAD", "20240101000000 2 6 100", "\x00\x01\x02",
+                                  "time type tests tries size generator modulus", "20240101000000 two 6 100 2047 2 C0FFEE"])]
         lines.append(sep.join(fields))
+        if reason == "malformed":
+            garbage.add(lines[-1])
         if reason is None:
             accepted.append((g, p))
         else:
@@ -139,8 +146,11 @@ def make_file(rng):
         if rng.random() < 0.15:
             lines.append(rng.choice(["", "# comment", "#" + lines[-1], "   "]))
     rng.shuffle(lines)
+    good_hex = {"%X" % p for g, p in accepted}
+    last_good = max([i for i, ln in enumerate(lines) if ln.split() and ln.split()[-1] in good_hex and not ln.startswith("#")] or [-1])
+    garbage_before_good = any(ln in garbage for ln in lines[:max(0, last_good)])
     good_lens = {p.bit_length() for g, p in accepted}
-    info = dict(mislabel=mislabel, some_mislabelled=bool(mislabelled_lens),
+    info = dict(mislabel=mislabel, some_mislabelled=bool(mislabelled_lens), garbage_before_good=garbage_before_good,
                 dead_lengths=sorted(mislabelled_lens - good_lens))  # lengths that exist only on mislabelled lines
     return "\n".join(lines) + rng.choice(["\n", ""]), accepted, rejected, info
 
@@ -328,6 +338,10 @@ def run_file(ctx, rng, tmpdir, nreq, fileno):
     # requests are placed around the accepted sizes AND around lengths that exist only on mislabelled lines
     around = sorted(set(sizes) | set(info["dead_lengths"])) or [rng.randint(16, 400)]
     requests = [rand_request(rng, around) for _ in range(nreq)]
+    if sizes:
+        for k in range(nreq - 4, nreq):  # preferred above every size we have, range still open: the largest in-range one
+            top = sizes[-1] + rng.randint(1, 60)
+            requests[k] = (rng.choice([0, sizes[0], max(0, sizes[-1] - rng.randint(0, 80))]), top, top + rng.randint(0, 500))
     if info["dead_lengths"]:
         for k in range(min(6, nreq)):  # some requests that would select exactly a dead length
             L = rng.choice(info["dead_lengths"])
@@ -360,6 +374,8 @@ def run_file(ctx, rng, tmpdir, nreq, fileno):
     for flag, name in (("some_mislabelled", "files_with_some_mislabelled_size_lines"),):
         if info[flag]:
             ctx.count(name)
+    if info["garbage_before_good"]:
+        ctx.count("files_with_an_unparsable_line_before_a_good_line")
     if info["mislabel"] == "one-length":
         ctx.count("files_with_every_line_of_one_length_mislabelled")
     if info["mislabel"] == "whole-file":
@@ -423,6 +439,11 @@ def judge_results(ctx, results, text, accepted, rejected, info, sizes, fileno, e
             continue
         if ref_select(accepted, lo, prefer, hi) is not None:
             ctx.count("offers_with_in_range_size")
+            inr = [b for b in sizes if lo <= b <= hi]
+            if inr and inr[-1] < prefer:
+                ctx.count("offers_where_every_in_range_size_is_below_preferred")
+                if len(inr) > 1:
+                    ctx.count("offers_where_several_in_range_sizes_are_all_below_preferred")
         # the driver judges too (does not rely on the wrapper being reached)
         v = judge((accepted, rejected), lo, prefer, hi, got, earlier)
         if v is not None:
@@ -470,7 +491,7 @@ def derive_file(rng, kind, prev):
     rej = {p: why for p, why in rejected.items() if "%X" % p in have}
     good = {p.bit_length() for g, p in acc}
     dead = sorted({p.bit_length() for p, why in rej.items() if why == "bitlength"} - good)
-    return t, acc, rej, dict(mislabel="none", some_mislabelled=False, dead_lengths=dead)
+    return t, acc, rej, dict(mislabel="none", some_mislabelled=False, dead_lengths=dead, garbage_before_good=False)
 
 
 def reread_history(ctx, rng, tmpdir, hi, nreq):
@@ -651,6 +672,9 @@ def run(ctx):
     ctx.require("contract_offer_follows_reference_selection", 10000)
     ctx.require("lines_rejected_by_reference", 500)
     ctx.require("session_gex_groups_judged", 4)
+    ctx.require("files_with_an_unparsable_line_before_a_good_line", 200)
+    ctx.require("offers_where_every_in_range_size_is_below_preferred", 4000)
+    ctx.require("offers_where_several_in_range_sizes_are_all_below_preferred", 1500)
     ctx.require("reread_histories_run", 400)
     ctx.require("rereads_judged", 800)
     ctx.require("rereads_pruned", 150)
